@@ -22,7 +22,9 @@ Valid(p) == /\ (p.end.kind \in {"result", "runraises"} => p.cli)
             /\ (p.end.kind = "signal" /\ p.end.at = 9 => ~p.cli)          \* a signal during run() of a CLI application is not specified
             /\ (p.end.kind = "crash" /\ p.end.at = 9 => ~p.cli)
             /\ (p.end.kind \in {"fail", "timeout"} => p.end.c <= p.n)
-Init == /\ prog \in {p \in [n : 1..MaxComps, cli : BOOLEAN, end : Endings] : Valid(p)} /\ done = FALSE
+\* late: the callback registered first (by the root's prepare(), so it runs last) registers one more callback while it runs, i.e.
+\* while the root context is already being torn down; that one has to run as well before run_application finishes
+Init == /\ prog \in {p \in [n : 1..MaxComps, cli : BOOLEAN, end : Endings, late : BOOLEAN] : Valid(p)} /\ done = FALSE
 Next == ~done /\ done' = TRUE /\ UNCHANGED prog
 \* ---- the documented outcome ----
 StartupDone == 8                                   \* time 4, in halves
